@@ -642,3 +642,558 @@ Proof.
     unfold a_clear. cbn. rewrite app_nil_r.
     destruct J as (K1 & K2 & K3 & K4). split; [exact K1|]. split; [exact K2|]. split; auto.
 Qed.
+
+(* ---------- relay: a backend write only as part of the relay consumer's invocation ---------- *)
+
+Definition w_backend (id : Z) (e : event) : nat :=
+  match e with EBackend i _ _ => if Z.eqb id i then 1 else 0 | _ => 0 end.
+
+Lemma count_backend_sum id evs : count_backend id evs = sumf (w_backend id) evs.
+Proof.
+  unfold count_backend. rewrite <- sumf_filter. induction evs as [|e l IH]; simpl; auto.
+  rewrite IH. destruct e; simpl; auto.
+Qed.
+
+Lemma send_more_no_backend n tag s id : sumf (w_backend id) (snd (send_more n tag s)) = 0.
+Proof.
+  pose proof (send_more_no_inv n tag s) as H. induction (snd (send_more n tag s)) as [|e l IH]; auto.
+  simpl. rewrite IH by (intros e0 Hin; apply H; now right).
+  specialize (H e (or_introl eq_refl)). destruct e; simpl; auto. destruct H.
+Qed.
+
+Lemma action_backend v a s id :
+  is_action v a -> sumf (w_backend id) (snd (a s)) <= sumf (w_cons id) (snd (a s)).
+Proof.
+  intros Ha. destruct Ha.
+  - unfold s_alloc. cbn -[Z.add]. lia.
+  - unfold s_register, register_core. cbn. lia.
+  - unfold s_write. cbn. destruct (l_fired _); cbn; lia.
+  - unfold r_lookup. destruct (mfind _ _); cbn; lia.
+  - unfold r_consume. destruct (l_tok _) as [[[i k] a]|]; [|cbn; lia].
+    destruct k as [tag|tag n|bid]; cbn -[send_more].
+    + lia.
+    + pose proof (send_more_no_backend n tag
+        (set_local s r (mkLocal (l_id (get_local s r)) (l_fired (get_local s r)) None
+           (l_hit (get_local s r)) (l_done (get_local s r)) (l_cb (get_local s r)) (l_msgs (get_local s r)))) id) as H.
+      destruct (send_more n tag _) as [s1 e1]. cbn [snd] in *. simpl. rewrite H. lia.
+    + destruct (Z.eqb id i); lia.
+  - unfold r_check. destruct (l_hit _); cbn; lia.
+  - unfold r_complete. destruct (_ && _); cbn; lia.
+  - unfold f_fire. cbn. lia.
+  - unfold f_flush. destruct (l_msgs _) as [|m ms].
+    + destruct (l_cb _); cbn; lia.
+    + cbn [snd]. rewrite !sumf_app, !sumf_msgs by reflexivity. simpl. lia.
+  - cbn. lia.
+Qed.
+
+(* ---------- lifting to every schedule ---------- *)
+
+Definition good (v : variant) (s : state) (evs : list event) : Prop :=
+  acc_cons s evs /\ justified s evs
+  /\ (forall id, sumf (w_backend id) evs <= sumf (w_cons id) evs)
+  /\ (v = Spec -> acc_compl s evs).
+
+Lemma good_step v a s evs : is_action v a -> good v s evs -> good v (fst (a s)) (evs ++ snd (a s)).
+Proof.
+  intros Ha (G1 & G2 & G3 & G4). split; [eapply step_acc_cons; eauto|].
+  split; [eapply step_justified; eauto|]. split.
+  - intros id. rewrite !sumf_app. pose proof (action_backend v a s id Ha). specialize (G3 id). lia.
+  - intros ->. apply step_acc_compl; auto.
+Qed.
+
+Lemma good_init v pok n : good v (init pok n) [].
+Proof.
+  assert (Ht : forall id, tokens id (init pok n) = 0)
+    by (intros id; unfold tokens, init; simpl; induction n; simpl; auto).
+  assert (Hc : cbtokens (init pok n) = 0)
+    by (unfold cbtokens, init; simpl; induction n; simpl; auto).
+  split; [|split; [|split]].
+  - intros id. rewrite Ht. change (inmap id (init pok n)) with 0. simpl. lia.
+  - split; [intros id k H; discriminate|]. split; [|split; intros ? ? ? []].
+    intros l Hin. unfold init in Hin; simpl in Hin. apply repeat_spec in Hin. subst. exact I.
+  - intros id. simpl. lia.
+  - intros _. unfold acc_compl. rewrite Hc. change (onall1 (init pok n)) with 0. simpl. lia.
+Qed.
+
+Definition actions_only (v : variant) (ts : list (@thread state event)) : Prop :=
+  forall a, In a (concat ts) -> is_action v a.
+
+Lemma all_schedules_good v pok n ts sched :
+  actions_only v ts ->
+  good v (final_state (run ts sched (init pok n))) (events (run ts sched (init pok n))).
+Proof.
+  intros Ht. apply (trace_inv_all_schedules (good v) ts) with (evs0 := []).
+  - intros a Ha s evs Hg. apply good_step; auto.
+  - apply good_init.
+Qed.
+
+Lemma consumer_at_most_once_all v pok n ts sched id :
+  actions_only v ts ->
+  let evs := events (run ts sched (init pok n)) in
+  count_cons id evs <= count_reg id evs.
+Proof.
+  intros Ht evs. destruct (all_schedules_good v pok n ts sched Ht) as (G1 & _).
+  specialize (G1 id). rewrite count_cons_sum, count_reg_sum. fold evs in G1. lia.
+Qed.
+
+Lemma id_correlation_all v pok n ts sched id k a :
+  actions_only v ts ->
+  let evs := events (run ts sched (init pok n)) in
+  In (ECons id k a) evs -> In (EReg id k) evs /\ In (EResp id a) evs.
+Proof.
+  intros Ht evs. destruct (all_schedules_good v pok n ts sched Ht) as (_ & (_ & _ & J3 & _) & _).
+  apply J3.
+Qed.
+
+Lemma relay_all v pok n ts sched id :
+  actions_only v ts ->
+  let evs := events (run ts sched (init pok n)) in
+  count_backend id evs <= count_reg id evs
+  /\ forall bid a, In (EBackend id bid a) evs -> In (EReg id (CRelay bid)) evs /\ In (EResp id a) evs.
+Proof.
+  intros Ht evs. destruct (all_schedules_good v pok n ts sched Ht) as (G1 & (_ & _ & _ & J4) & G3 & _).
+  split.
+  - specialize (G1 id). specialize (G3 id). rewrite count_backend_sum, count_reg_sum.
+    fold evs in G1, G3. lia.
+  - intros bid a. apply J4.
+Qed.
+
+Lemma completion_at_most_once_all pok n ts sched :
+  actions_only Spec ts ->
+  let evs := events (run ts sched (init pok n)) in
+  count_completion evs <= count_fire evs.
+Proof.
+  intros Ht evs. destruct (all_schedules_good Spec pok n ts sched Ht) as (_ & _ & _ & G4).
+  specialize (G4 eq_refl). unfold acc_compl in G4. rewrite count_completion_sum, count_fire_sum.
+  fold evs in G4. lia.
+Qed.
+
+(* ---------- whole calls ---------- *)
+
+Lemma run_actions_cons a r s s1 e1 :
+  a s = (s1, e1) ->
+  run_actions (a :: r) s = (fst (run_actions r s1), e1 ++ snd (run_actions r s1)).
+Proof. intros H. simpl. rewrite H. now destruct (run_actions r s1). Qed.
+
+Lemma get_set_local0 s x l0 ls : locals s = l0 :: ls -> get_local (set_local s 0 x) 0 = x.
+Proof. intros H. unfold get_local, set_local; simpl. now rewrite H. Qed.
+
+(* "responses with unknown ids are ignored": nothing is invoked, written or completed, and the
+   connection's fields are as before *)
+Lemma unknown_ignored_seq v s id ok data :
+  locals s <> [] -> mfind id (outstanding s) = None ->
+  let r := step_op v s (OResponse id ok data) in
+  snd r = [EResp id (resp_arg ok data)]
+  /\ seqc (fst r) = seqc s /\ outstanding (fst r) = outstanding s /\ queue (fst r) = queue s
+  /\ fired (fst r) = fired s /\ on_all (fst r) = on_all s /\ locals (fst r) <> [].
+Proof.
+  intros Hl Hf. destruct (locals s) as [|l0 ls] eqn:El; [congruence|].
+  set (a := resp_arg ok data).
+  set (x := mkLocal (l_id (get_local s 0)) (l_fired (get_local s 0)) None false false false
+                    (l_msgs (get_local s 0))).
+  set (s1 := set_local s 0 x).
+  assert (G1 : get_local s1 0 = x) by (eapply get_set_local0; eauto).
+  assert (A1 : r_lookup 0 id a s = (s1, [EResp id a])) by (unfold r_lookup; now rewrite Hf).
+  assert (A2 : r_consume 0 s1 = (s1, [])) by (unfold r_consume; now rewrite G1).
+  assert (A3 : r_check v 0 s1 = (s1, [])) by (unfold r_check; now rewrite G1).
+  assert (A4 : r_complete 0 s1 = (s1, [])) by (unfold r_complete; now rewrite G1).
+  unfold step_op, response_thread. fold a.
+  rewrite (run_actions_cons _ _ _ _ _ A1), (run_actions_cons _ _ _ _ _ A2),
+          (run_actions_cons _ _ _ _ _ A3), (run_actions_cons _ _ _ _ _ A4).
+  cbn [run_actions fst snd app]. repeat split; try reflexivity.
+  unfold s1, set_local; simpl. rewrite El. discriminate.
+Qed.
+
+(* the recorded defect: the code as it is runs the completion twice with one fire *)
+Definition refuting_history : list op :=
+  [OFire; OSend (CPlain 1) [1%N]; OResponse 1 true []].
+
+Lemma impl_completion_refuted_witness :
+  let evs := concat (snd (run_ops Impl (init true 1) refuting_history)) in
+  count_fire evs = 1 /\ count_completion evs = 2
+  /\ count_completion (concat (snd (run_ops Spec (init true 1) refuting_history))) = 1.
+Proof. vm_compute. repeat split; reflexivity. Qed.
+
+(* ---------- Spec, whole calls: the completion runs exactly once ---------- *)
+
+Definition is_nil {A} (l : list A) : bool := match l with [] => true | _ => false end.
+
+Lemma send_more_fired n tag s : fired (fst (send_more n tag s)) = fired s.
+Proof.
+  revert tag s. induction n as [|n IH]; intros tag s; [reflexivity|].
+  cbn [send_more].
+  assert (E1 : fired (fst (send_now (CPlain (tag + 1)) [N.succ tag] s)) = fired s) by reflexivity.
+  destruct (send_now (CPlain (tag + 1)) [N.succ tag] s) as [s1 e1]. cbn [fst] in E1.
+  specialize (IH (tag + 1)%N s1). destruct (send_more n (tag + 1) s1) as [s2 e2]. cbn [fst] in *.
+  congruence.
+Qed.
+
+Lemma send_more_proto n tag s : proto_ok (fst (send_more n tag s)) = proto_ok s.
+Proof.
+  revert tag s. induction n as [|n IH]; intros tag s; [reflexivity|].
+  cbn [send_more].
+  assert (E1 : proto_ok (fst (send_now (CPlain (tag + 1)) [N.succ tag] s)) = proto_ok s) by reflexivity.
+  destruct (send_now (CPlain (tag + 1)) [N.succ tag] s) as [s1 e1]. cbn [fst] in E1.
+  specialize (IH (tag + 1)%N s1). destruct (send_more n (tag + 1) s1) as [s2 e2]. cbn [fst] in *.
+  congruence.
+Qed.
+
+(* a successful send: something is outstanding afterwards; before the event it is also queued *)
+Lemma send_seq k d0 d s :
+  locals s <> [] -> proto_ok s = true ->
+  let r := do_send k (d0 :: d) s in
+  outstanding (fst r) <> [] /\ fired (fst r) = fired s /\ on_all (fst r) = on_all s
+  /\ (fired s = false -> queue (fst r) <> []) /\ (fired s = true -> queue (fst r) = queue s)
+  /\ count_completion (snd r) = 0 /\ locals (fst r) <> [] /\ proto_ok (fst r) = true.
+Proof.
+  intros Hl Hp. destruct (locals s) as [|l0 ls] eqn:El; [congruence|].
+  unfold do_send. rewrite Hp. set (data := d0 :: d).
+  set (l := get_local s 0).
+  set (id := (seqc s + 1)%Z).
+  set (x1 := mkLocal id (l_fired l) (l_tok l) (l_hit l) (l_done l) (l_cb l) (l_msgs l)).
+  set (s1 := set_local (mkSt id (outstanding s) (queue s) (fired s) (on_all s) (proto_ok s) (locals s)) 0 x1).
+  assert (G1 : get_local s1 0 = x1) by (eapply get_set_local0; simpl; eauto).
+  assert (A1 : s_alloc 0 s = (s1, [])) by reflexivity.
+  set (x2 := mkLocal id (fired s) (l_tok l) (l_hit l) (l_done l) (l_cb l) (l_msgs l)).
+  set (s2 := set_local (mkSt id (mset id k (outstanding s))
+                             (if fired s then queue s else queue s ++ [(id, data)])
+                             (fired s) (on_all s) (proto_ok s) (locals s1)) 0 x2).
+  assert (A2 : s_register 0 k data s1 = (s2, [EReg id k])).
+  { unfold s_register, register_core. rewrite G1. reflexivity. }
+  assert (El1 : locals s1 = x1 :: ls) by (unfold s1, set_local; simpl; now rewrite El).
+  assert (G2 : get_local s2 0 = x2) by (eapply get_set_local0; simpl; eauto).
+  assert (A3 : s_write 0 data s2 = (s2, if fired s then [EMsg id data] else [])).
+  { unfold s_write. now rewrite G2. }
+  unfold send_thread.
+  rewrite (run_actions_cons _ _ _ _ _ A1), (run_actions_cons _ _ _ _ _ A2), (run_actions_cons _ _ _ _ _ A3).
+  cbn [run_actions fst snd]. rewrite app_nil_r.
+  assert (Hl2 : locals s2 <> []).
+  { unfold s2, set_local; simpl. rewrite El. discriminate. }
+  repeat split; auto.
+  - unfold s2, mset; simpl. discriminate.
+  - intros Hf. unfold s2; simpl. rewrite Hf. destruct (queue s); discriminate.
+  - intros Hf. unfold s2; simpl. now rewrite Hf.
+  - destruct (fired s); reflexivity.
+Qed.
+
+(* the event: with nothing queued the completion runs now and no callback is kept *)
+Lemma fire_seq s :
+  locals s <> [] ->
+  let r := step_op Spec s OFire in
+  fired (fst r) = true /\ outstanding (fst r) = outstanding s
+  /\ on_all (fst r) = negb (is_nil (queue s))
+  /\ count_completion (snd r) = (if is_nil (queue s) then 1 else 0)
+  /\ locals (fst r) <> [] /\ proto_ok (fst r) = proto_ok s.
+Proof.
+  intros Hl. destruct (locals s) as [|l0 ls] eqn:El; [congruence|].
+  set (l := get_local s 0). set (empty := is_nil (queue s)).
+  set (x1 := mkLocal (l_id l) (l_fired l) (l_tok l) false false empty (queue s)).
+  set (s1 := set_local (mkSt (seqc s) (outstanding s) [] true (negb empty) (proto_ok s) (locals s)) 0 x1).
+  assert (G1 : get_local s1 0 = x1) by (eapply get_set_local0; simpl; eauto).
+  assert (A1 : f_fire Spec 0 s = (s1, [EFire])) by reflexivity.
+  assert (Hl1 : locals s1 <> []) by (unfold s1, set_local; simpl; rewrite El; discriminate).
+  unfold step_op, fire_thread. rewrite (run_actions_cons _ _ _ _ _ A1).
+  unfold run_actions. unfold f_flush. rewrite G1. cbn [l_msgs l_cb x1].
+  unfold empty, is_nil. destruct (queue s) as [|m ms] eqn:Eq.
+  - cbn. repeat split; auto. rewrite El. discriminate.
+  - cbn [fst snd]. repeat split; auto.
+    + unfold count_completion. rewrite !filter_app. simpl.
+      rewrite app_nil_r.
+      assert (E : filter (fun e => match e with ECompletion => true | _ => false end)
+                         (map (fun m0 : Z * body => EMsg (fst m0) (snd m0)) ms) = []).
+      { clear. induction ms; simpl; auto. }
+      now rewrite E.
+    + unfold s1, set_local; simpl. rewrite El. discriminate.
+Qed.
+
+(* a response to an outstanding id: the consumer runs; if nothing is outstanding afterwards the
+   kept callback (if any) runs and is dropped *)
+Lemma response_hit_seq s id k ok data :
+  locals s <> [] -> mfind id (outstanding s) = Some k ->
+  let r := step_op Spec s (OResponse id ok data) in
+  let done := is_nil (outstanding (fst r)) in
+  fired (fst r) = fired s
+  /\ on_all (fst r) = (if done then false else on_all s)
+  /\ count_completion (snd r) = (if done && on_all s then 1 else 0)
+  /\ count_cons id (snd r) = 1
+  /\ In (ECons id k (resp_arg ok data)) (snd r)
+  /\ (forall bid, k = CRelay bid -> In (EBackend id bid (resp_arg ok data)) (snd r)
+                                    /\ count_backend id (snd r) = 1)
+  /\ locals (fst r) <> [] /\ proto_ok (fst r) = proto_ok s.
+Proof.
+  intros Hl Hf. destruct (locals s) as [|l0 ls] eqn:El; [congruence|].
+  set (a := resp_arg ok data). set (l := get_local s 0).
+  set (x1 := mkLocal (l_id l) (l_fired l) (Some (id, k, a)) true false false (l_msgs l)).
+  set (s1 := set_local (mkSt (seqc s) (mremove id (outstanding s)) (queue s) (fired s) (on_all s)
+                             (proto_ok s) (locals s)) 0 x1).
+  assert (G1 : get_local s1 0 = x1) by (eapply get_set_local0; simpl; eauto).
+  assert (A1 : r_lookup 0 id a s = (s1, [EResp id a])) by (unfold r_lookup; now rewrite Hf).
+  assert (El1 : locals s1 = x1 :: ls) by (unfold s1, set_local; simpl; now rewrite El).
+  set (x2 := mkLocal (l_id l) (l_fired l) None true false false (l_msgs l)).
+  set (s2 := set_local s1 0 x2).
+  assert (El2 : locals s2 = x2 :: ls) by (unfold s2, s1, set_local; simpl; now rewrite El).
+  (* the consumer *)
+  assert (HC : exists s3 e3,
+            r_consume 0 s1 = (s3, e3) /\ locals s3 = x2 :: ls /\ fired s3 = fired s
+            /\ on_all s3 = on_all s /\ proto_ok s3 = proto_ok s
+            /\ count_completion e3 = 0 /\ count_cons id e3 = 1 /\ In (ECons id k a) e3
+            /\ (forall bid, k = CRelay bid -> In (EBackend id bid a) e3 /\ count_backend id e3 = 1)).
+  { unfold r_consume. rewrite G1. cbn [l_tok x1 l_id l_fired l_hit l_done l_cb l_msgs]. fold x2. fold s2.
+    destruct k as [tag|tag n|bid].
+    - exists s2, [ECons id (CPlain tag) a]. repeat split; auto.
+      + unfold count_cons; simpl. now rewrite Z.eqb_refl.
+      + now left.
+      + discriminate.
+      + discriminate.
+    - pose proof (send_more_locals n tag s2) as L1. pose proof (send_more_fired n tag s2) as L2.
+      pose proof (send_more_on_all n tag s2) as L3. pose proof (send_more_no_inv n tag s2) as L4.
+      destruct (send_more_no_compl n tag s2) as [L5 _].
+      pose proof (send_more_proto n tag s2) as L6.
+      destruct (send_more n tag s2) as [s3 e3]. cbn [fst snd] in *.
+      exists s3, (ECons id (CSendMore tag n) a :: e3). repeat split; auto.
+      + congruence.
+      + rewrite count_completion_sum. simpl. exact L5.
+      + unfold count_cons. simpl. rewrite Z.eqb_refl. simpl. f_equal.
+        assert (E : filter (fun e => match e with ECons i _ _ => (id =? i)%Z | _ => false end) e3 = []).
+        { clear -L4. induction e3 as [|e l IH]; simpl; auto.
+          pose proof (L4 e (or_introl eq_refl)) as He.
+          rewrite IH by (intros e0 Hin; apply L4; now right). destruct e; auto. destruct He. }
+        now rewrite E.
+      + now left.
+      + discriminate.
+      + discriminate.
+    - exists s2, [ECons id (CRelay bid) a; EBackend id bid a]. repeat split; auto.
+      + unfold count_cons; simpl. now rewrite Z.eqb_refl.
+      + now left.
+      + inversion H; subst. right. now left.
+      + unfold count_backend; simpl. now rewrite Z.eqb_refl. }
+  destruct HC as (s3 & e3 & A2 & El3 & F3 & O3 & P3 & C3 & N3 & I3 & B3).
+  assert (G3 : get_local s3 0 = x2) by (unfold get_local; now rewrite El3).
+  set (done := is_nil (outstanding s3)).
+  set (x4 := mkLocal (l_id l) (l_fired l) None true done (done && on_all s3) (l_msgs l)).
+  set (s4 := set_local (mkSt (seqc s3) (outstanding s3) (queue s3) (fired s3)
+                             (if done then false else on_all s3) (proto_ok s3) (locals s3)) 0 x4).
+  assert (A3 : r_check Spec 0 s3 = (s4, [])).
+  { unfold r_check. rewrite G3. cbn [l_hit x2 l_id l_fired l_tok l_msgs]. reflexivity. }
+  assert (G4 : get_local s4 0 = x4) by (eapply get_set_local0; simpl; eauto).
+  assert (El4 : locals s4 = x4 :: ls) by (unfold s4, set_local; simpl; now rewrite El3).
+  set (x5 := mkLocal (l_id l) (l_fired l) None false false false (l_msgs l)).
+  assert (A4 : r_complete 0 s4 =
+               if done && on_all s3 then (set_local s4 0 x5, [ECompletion]) else (s4, [])).
+  { unfold r_complete. rewrite G4. cbn [l_hit l_done l_cb x4 l_id l_fired l_tok l_msgs].
+    destruct done, (on_all s3); reflexivity. }
+  assert (Hres : step_op Spec s (OResponse id ok data) =
+                 if done && on_all s3
+                 then (set_local s4 0 x5, [EResp id a] ++ e3 ++ [ECompletion])
+                 else (s4, [EResp id a] ++ e3)).
+  { unfold step_op, response_thread. fold a.
+    rewrite (run_actions_cons _ _ _ _ _ A1), (run_actions_cons _ _ _ _ _ A2),
+            (run_actions_cons _ _ _ _ _ A3).
+    destruct (done && on_all s3).
+    - rewrite (run_actions_cons _ _ _ _ _ A4). cbn [run_actions fst snd]. now rewrite !app_nil_r.
+    - rewrite (run_actions_cons _ _ _ _ _ A4). cbn [run_actions fst snd]. now rewrite !app_nil_r. }
+  assert (Hcc : forall e, count_completion ([EResp id a] ++ e3 ++ e) = count_completion e).
+  { intros e. unfold count_completion in *. rewrite !filter_app. simpl.
+    apply length_zero_iff_nil in C3. now rewrite C3. }
+  assert (Hcn : forall e, (forall x, In x e -> x = ECompletion) ->
+                count_cons id ([EResp id a] ++ e3 ++ e) = 1
+                /\ (forall bid, k = CRelay bid -> count_backend id ([EResp id a] ++ e3 ++ e) = 1)).
+  { intros e He.
+    assert (E1 : filter (fun x => match x with ECons i _ _ => (id =? i)%Z | _ => false end) e = []).
+    { clear -He. induction e as [|y e IH]; simpl; auto.
+      rewrite (He y (or_introl eq_refl)). apply IH. intros x Hx. apply He. now right. }
+    assert (E2 : filter (fun x => match x with EBackend i _ _ => (id =? i)%Z | _ => false end) e = []).
+    { clear -He. induction e as [|y e IH]; simpl; auto.
+      rewrite (He y (or_introl eq_refl)). apply IH. intros x Hx. apply He. now right. }
+    split.
+    - unfold count_cons in *. rewrite !filter_app, E1. simpl. rewrite app_nil_r. exact N3.
+    - intros bid Hk. destruct (B3 bid Hk) as [_ Hb]. unfold count_backend in *.
+      rewrite !filter_app, E2. simpl. rewrite app_nil_r. exact Hb. }
+  assert (Hin : forall e, In (ECons id k a) ([EResp id a] ++ e3 ++ e))
+    by (intros e; apply in_or_app; right; apply in_or_app; now left).
+  assert (Hinb : forall e bid, k = CRelay bid -> In (EBackend id bid a) ([EResp id a] ++ e3 ++ e)).
+  { intros e bid Hk. destruct (B3 bid Hk) as [Hb _]. apply in_or_app; right; apply in_or_app; now left. }
+  cbv zeta. rewrite Hres. rewrite <- O3.
+  destruct (done && on_all s3) eqn:Ed.
+  - apply andb_true_iff in Ed. destruct Ed as [Ed1 Ed2]. cbn [fst snd].
+    change (outstanding (set_local s4 0 x5)) with (outstanding s3). fold done. rewrite Ed1, Ed2.
+    destruct (Hcn [ECompletion]) as [Hn1 Hn2]; [intros y [<-|[]]; reflexivity|].
+    split; [exact F3|]. split; [unfold s4; simpl; now rewrite Ed1|].
+    split; [now rewrite Hcc|]. split; [exact Hn1|]. split; [apply Hin|].
+    split; [intros bid Hk; split; [exact (Hinb _ bid Hk)|exact (Hn2 bid Hk)]|].
+    split; [|exact P3].
+    change (locals (set_local s4 0 x5)) with (upd (locals s4) 0 x5). rewrite El4. discriminate.
+  - cbn [fst snd]. change (outstanding s4) with (outstanding s3). fold done.
+    destruct (Hcn []) as [Hn1 Hn2]; [intros y []|]. rewrite app_nil_r in Hn1.
+    assert (Hn2' : forall bid, k = CRelay bid -> count_backend id ([EResp id a] ++ e3) = 1)
+      by (intros bid Hk; specialize (Hn2 bid Hk); now rewrite app_nil_r in Hn2).
+    split; [exact F3|]. split; [unfold s4; simpl; reflexivity|].
+    split; [specialize (Hcc []); rewrite app_nil_r in Hcc; rewrite Hcc; now rewrite Ed|].
+    split; [exact Hn1|].
+    split; [specialize (Hin []); now rewrite app_nil_r in Hin|].
+    split.
+    + intros bid Hk. split; [|exact (Hn2' bid Hk)]. specialize (Hinb [] bid Hk). now rewrite app_nil_r in Hinb.
+    + split; [|exact P3]. rewrite El4. discriminate.
+Qed.
+
+(* histories of the login as the property describes it: sends and relays at any time, the event
+   exactly at most once, client responses only after it, the callback never cleared *)
+Fixpoint adm (f : bool) (os : list op) : bool :=
+  match os with
+  | [] => true
+  | OSend _ _ :: r | ORelay _ _ :: r => adm f r
+  | OResponse _ _ _ :: r => f && adm f r
+  | OFire :: r => negb f && adm true r
+  | OClear :: _ => false
+  end.
+
+Definition K (s : state) (c : nat) : Prop :=
+  locals s <> [] /\
+  if fired s
+  then (on_all s = true /\ c = 0 /\ outstanding s <> []) \/ (on_all s = false /\ c = 1)
+  else on_all s = false /\ c = 0 /\ (outstanding s = [] <-> queue s = []).
+
+Lemma count_completion_app a b : count_completion (a ++ b) = count_completion a + count_completion b.
+Proof. unfold count_completion. now rewrite filter_app, app_length. Qed.
+
+Lemma do_send_K k data s c :
+  K s c ->
+  let r := do_send k data s in
+  K (fst r) (c + count_completion (snd r)) /\ fired (fst r) = fired s /\ count_completion (snd r) = 0.
+Proof.
+  intros [Hl HK]. unfold do_send. destruct data as [|d0 d].
+  - simpl. rewrite Nat.add_0_r. repeat split; auto.
+  - destruct (proto_ok s) eqn:Hp.
+    + destruct (send_seq k d0 d s Hl Hp) as (H1 & H2 & H3 & H4 & H5 & H6 & H7 & _).
+      unfold do_send in *. rewrite Hp in *.
+      set (r := run_actions (send_thread 0 k (d0 :: d)) s) in *.
+      rewrite H6, Nat.add_0_r. split; [|split; auto]. split; [exact H7|].
+      rewrite H2, H3. destruct (fired s) eqn:Hf.
+      * destruct HK as [(Ha & Hc & _)|(Ha & Hc)]; [left|right]; auto.
+      * destruct HK as (Ha & Hc & Hq). repeat split; auto.
+        -- intros E. contradiction.
+        -- intros E. exfalso. apply (H4 eq_refl). exact E.
+    + simpl. rewrite Nat.add_0_r. repeat split; auto.
+Qed.
+
+Lemma K_step s c o :
+  K s c -> adm (fired s) [o] = true ->
+  let r := step_op Spec s o in
+  K (fst r) (c + count_completion (snd r))
+  /\ fired (fst r) = (match o with OFire => true | _ => fired s end)
+  /\ (0 < count_completion (snd r) -> outstanding (fst r) = []).
+Proof.
+  intros HK Ha. pose proof HK as [Hl HK']. destruct o as [k data|bid data|id ok data| |].
+  - destruct (do_send_K k data s c HK) as (H1 & H2 & H3). cbn [step_op].
+    split; [exact H1|]. split; [exact H2|]. rewrite H3. lia.
+  - destruct (do_send_K (CRelay bid) (match data with [] => [0%N] | _ => data end) s c HK) as (H1 & H2 & H3).
+    cbn [step_op]. split; [exact H1|]. split; [exact H2|]. rewrite H3. lia.
+  - simpl in Ha. rewrite andb_true_r in Ha. rewrite Ha in HK'.
+    destruct (mfind id (outstanding s)) as [k|] eqn:Hf.
+    + destruct (response_hit_seq s id k ok data Hl Hf) as (F & O & C & _ & _ & _ & L & _).
+      set (r := step_op Spec s (OResponse id ok data)) in *. cbv zeta in *.
+      split; [|split; [exact F|]].
+      * split; [exact L|]. rewrite F, Ha, O, C.
+        destruct (outstanding (fst r)) as [|x xs] eqn:Eo; cbn [is_nil andb].
+        -- destruct HK' as [(Hon & Hc & _)|(Hon & Hc)]; rewrite Hon; right; split; auto; lia.
+        -- destruct HK' as [(Hon & Hc & _)|(Hon & Hc)]; rewrite Hon.
+           ++ left. repeat split; auto; [lia|discriminate].
+           ++ right. split; auto. lia.
+      * rewrite C. destruct (outstanding (fst r)); cbn [is_nil andb]; [auto|lia].
+    + destruct (unknown_ignored_seq Spec s id ok data Hl Hf) as (E & _ & O & Q & F & A & L).
+      set (r := step_op Spec s (OResponse id ok data)) in *. cbv zeta in *.
+      rewrite E. cbn [count_completion filter length]. rewrite Nat.add_0_r.
+      split; [|split; [exact F|lia]].
+      split; [exact L|]. rewrite F, Ha, A, O. exact HK'.
+  - simpl in Ha. rewrite andb_true_r in Ha. apply negb_true_iff in Ha. rewrite Ha in HK'.
+    destruct HK' as (Hon & Hc & Hq).
+    destruct (fire_seq s Hl) as (F & O & A & C & L & _).
+    set (r := step_op Spec s OFire) in *. cbv zeta in *.
+    split; [|split; [exact F|]].
+    + split; [exact L|]. rewrite F, A, C, O.
+      destruct (queue s) as [|m ms] eqn:Eq; cbn [is_nil negb].
+      * right. split; auto. lia.
+      * left. repeat split; auto; [lia|]. intros E. apply Hq in E. discriminate.
+    + rewrite C, O. destruct (queue s) eqn:Eq; cbn [is_nil]; [intros _; now apply Hq|lia].
+  - discriminate.
+Qed.
+
+Lemma K_run os : forall s c,
+  K s c -> adm (fired s) os = true ->
+  let r := run_ops Spec s os in
+  K (fst r) (c + count_completion (concat (snd r))).
+Proof.
+  induction os as [|o os IH]; intros s c HK Ha.
+  - simpl. now rewrite Nat.add_0_r.
+  - assert (Ha1 : adm (fired s) [o] = true).
+    { destruct o; simpl in *; auto.
+      - apply andb_true_iff in Ha. destruct Ha as [-> _]. reflexivity.
+      - apply andb_true_iff in Ha. destruct Ha as [-> _]. reflexivity. }
+    destruct (K_step s c o HK Ha1) as (H1 & H2 & _).
+    cbn [run_ops]. destruct (step_op Spec s o) as [s1 e1] eqn:E1. cbn [fst snd] in *.
+    assert (Ha2 : adm (fired s1) os = true).
+    { rewrite H2. destruct o; simpl in Ha; auto.
+      - apply andb_true_iff in Ha. tauto.
+      - apply andb_true_iff in Ha. tauto.
+      - discriminate. }
+    specialize (IH s1 _ H1 Ha2). destruct (run_ops Spec s1 os) as [s2 es]. cbn [fst snd concat] in *.
+    rewrite count_completion_app. now rewrite Nat.add_assoc.
+Qed.
+
+Lemma completion_exactly_once_spec pok n os :
+  0 < n -> adm false os = true ->
+  let r := run_ops Spec (init pok n) os in
+  let c := count_completion (concat (snd r)) in
+  c <= 1
+  /\ (fired (fst r) = false -> c = 0)
+  /\ (fired (fst r) = true -> outstanding (fst r) = [] -> c = 1)
+  /\ (fired (fst r) = true -> outstanding (fst r) <> [] -> c = 0 -> on_all (fst r) = true).
+Proof.
+  intros Hn Ha.
+  assert (K0 : K (init pok n) 0).
+  { split.
+    - unfold init; simpl. destruct n; [lia|discriminate].
+    - simpl. repeat split; auto. }
+  pose proof (K_run os (init pok n) 0 K0 Ha) as [_ HK]. cbv zeta in *. simpl plus in HK.
+  set (r := run_ops Spec (init pok n) os) in *.
+  destruct (fired (fst r)) eqn:Ef.
+  - destruct HK as [(Hon & Hc & Ho)|(Hon & Hc)]; rewrite Hc.
+    + split; [lia|]. split; [discriminate|]. split; [intros _ E; contradiction|]. intros _ _ _. exact Hon.
+    + split; [lia|]. split; [discriminate|]. split; [auto|]. intros _ _ E. discriminate.
+  - destruct HK as (Hon & Hc & _). rewrite Hc. split; [lia|]. split; [auto|]. split; discriminate.
+Qed.
+
+(* ---------- non-vacuity ---------- *)
+
+Definition nv_threads (v : variant) : list (@thread state event) :=
+  [send_thread 0 (CPlain 1) [1%N]; response_thread v 1 1 (Some []); fire_thread v 2].
+
+Lemma nv_threads_actions v : actions_only v (nv_threads v).
+Proof.
+  intros a Ha. unfold nv_threads, send_thread, response_thread, fire_thread in Ha. simpl in Ha.
+  repeat (destruct Ha as [<-|Ha]; [constructor|]). destruct Ha.
+Qed.
+
+Definition nv_check : bool :=
+  let outs_ := outcomes (nv_threads Spec) (init true 3) in
+  forallb (fun r => (count_cons 1 (events r) <=? 1) && (count_completion (events r) <=? 1)
+                    && (count_reg 1 (events r) =? 1) && (count_fire (events r) =? 1)) outs_
+  && existsb (fun r => (count_cons 1 (events r) =? 1) && (count_completion (events r) =? 1)) outs_
+  && (length outs_ =? 1260).
+
+Lemma nv_check_ok : nv_check = true.
+Proof. vm_compute. reflexivity. Qed.
+
+Definition nv_history : list op :=
+  [OSend (CSendMore 1 2) [1%N]; ORelay 7 []; OFire;
+   OResponse 2 true [9%N]; OResponse 1 false []; OResponse 3 true []; OResponse 3 true [];
+   OResponse 4 true [5%N]; OResponse 99 true []].
+
+Lemma nv_history_ok :
+  adm false nv_history = true
+  /\ let r := run_ops Spec (init true 1) nv_history in
+     fired (fst r) = true /\ outstanding (fst r) = []
+     /\ count_completion (concat (snd r)) = 1
+     /\ In (EBackend 2 7 (Some [9%N])) (concat (snd r))
+     /\ count_cons 3 (concat (snd r)) = 1.
+Proof. vm_compute. repeat split; try reflexivity. tauto. Qed.
